@@ -19,6 +19,9 @@ def harnesses(ctx, tier):
     def gen(ctx_, outdir):
         dump_image(ctx_, outdir, "IMG_", 'rule r { strings: $a = "a" condition: $a }\n', scale_defs=SCALE, fname="img_img.h")
     return [
+        Harness(name="H4_limit_state_cleared_at_exit", src="c11/report.c", unwind=8, timeout=600, unwind_funcs={"vf_init_tables": 257},
+                desc="after a scan in which strings were muted by the matches-per-string limit (arbitrary disabled-string bits, 70 strings), every exit of yr_scanner_scan_mem_blocks clears that state: the library remains usable and later scans are not silently changed",
+                bounds="70 strings / 3 rules; all exits (errors, abort, callback error)", functions=["yr_scanner_scan_mem_blocks", "_yr_scanner_clean_matches"]),
         Harness(name="H1_vm_stack_limit", src="c15/vm_limits.c", defines=["-DVF_MODE=1"], unwind=12, timeout=600,
                 flags=["--max-field-sensitivity-array-size", "256"], unwind_funcs={"yr_arena_ptr_to_ref": 3},
                 desc="VM evaluation stack at capacity L in 1..6 with a program needing 4 slots", bounds="L in 1..6, all pushed values",
